@@ -350,7 +350,10 @@ Val binop(State &S, unsigned op, const Val &a, const Val &b, unsigned w, const D
     case Instruction::And: r = mk(x & y, w); break;
     case Instruction::Or: r = mk(x | y, w); break;
     case Instruction::Xor: r = mk(x ^ y, w); break;
-    case Instruction::Shl: if (y >= w) throw Fault{"SHIFT-TOO-WIDE", "shl by " + std::to_string(y)}; if (nsw && ((sx << y) >> y) != sx) { /* C: left shift of signed overflow; advisory only */ } r = mk(x << y, w); break;
+    case Instruction::Shl:
+      if (y >= w) throw Fault{"SHIFT-TOO-WIDE", "shl by " + std::to_string(y)};
+      if (nsw && sextw((u64)(sx << y) & m, w) >> y != sx) throw Fault{"SIGNED-OVERFLOW", std::to_string(sx) + " << " + std::to_string(y)};
+      r = mk(x << y, w); break;
     case Instruction::LShr: if (y >= w) throw Fault{"SHIFT-TOO-WIDE", "lshr by " + std::to_string(y)}; r = mk((x & m) >> y, w); break;
     case Instruction::AShr: if (y >= w) throw Fault{"SHIFT-TOO-WIDE", "ashr by " + std::to_string(y)}; r = mk((u64)(sx >> y), w); break;
     default: die("binop opcode");
@@ -401,7 +404,10 @@ Val binop(State &S, unsigned op, const Val &a, const Val &b, unsigned w, const D
   case Instruction::And: r = mks(x & y, w); break;
   case Instruction::Or: r = mks(x | y, w); break;
   case Instruction::Xor: r = mks(x ^ y, w); break;
-  case Instruction::Shl: if (b.sym()) sym_ub(S, z3::uge(y, Z.bv_val(w, w)), "SHIFT-TOO-WIDE", "symbolic shl"); r = mks(z3::shl(x, y), w); break;
+  case Instruction::Shl:
+    if (b.sym()) sym_ub(S, z3::uge(y, Z.bv_val(w, w)), "SHIFT-TOO-WIDE", "symbolic shl");
+    if (nsw) sym_ub(S, z3::ashr(z3::shl(x, y), y) != x, "SIGNED-OVERFLOW", "symbolic shl");
+    r = mks(z3::shl(x, y), w); break;
   case Instruction::LShr: if (b.sym()) sym_ub(S, z3::uge(y, Z.bv_val(w, w)), "SHIFT-TOO-WIDE", "symbolic lshr"); r = mks(z3::lshr(x, y), w); break;
   case Instruction::AShr: if (b.sym()) sym_ub(S, z3::uge(y, Z.bv_val(w, w)), "SHIFT-TOO-WIDE", "symbolic ashr"); r = mks(z3::ashr(x, y), w); break;
   default: die("binop opcode (symbolic)");
